@@ -214,6 +214,24 @@ impl RxSpec {
                     }
                 }
             },
+            Ok(Err(_)) => {
+                // "...and of ALL later fragments with that id": a well-formed intermediate / end fragment that
+                // the receiver REJECTS still belongs to the arrival-order concatenation.  Its payload is appended
+                // to the reference context, so a later delivery that leaves these bytes out is flagged.  (A
+                // rejected FIRST fragment does not replace the reference context: the receiver may keep the
+                // train it had.)
+                if let Ok(p) = &parsed {
+                    if p.kind == Kind::Inter || p.kind == Kind::End {
+                        let id = p.frag_id.unwrap() as usize;
+                        if let Some(c) = &mut self.ctx[id] {
+                            if !p.payload.is_empty() {
+                                c.payload.extend_from_slice(&input[p.payload.clone()]);
+                                rep.count("rx.c03.rejected-fragment-kept-in-reference");
+                            }
+                        }
+                    }
+                }
+            }
             _ => {}
         }
     }
